@@ -198,7 +198,7 @@ def rule_assigned(ctx, rep):
 
 
 def run(ctx, rep):
-    rep.not_decided += ["termination and the time budget", "stack depth at nesting <= 12", "PEG backtracking cost",
+    rep.not_decided += ["termination beyond the per-loop progress condition (R-C04-progress), recursion depth and the time budget", "stack depth at nesting <= 12", "PEG backtracking cost",
                         "panics inside third-party crates other than the frozen list of documented-to-panic APIs"]
     rep.assumptions += ["rustc MIR at mir-opt-level=0 is faithful to the built program (debug profile: overflow checks on)",
                         "third-party crates panic only where documented (frozen list in rules/panics.py)",
@@ -210,6 +210,8 @@ def run(ctx, rep):
     rule_bound(ctx, rep)
     rule_pair(ctx, rep)
     rule_assigned(ctx, rep)
+    from rules import c04_progress
+    c04_progress.run(ctx, rep)
 
 
 CLIPPY_LINTS = ["unwrap_used", "expect_used", "panic", "todo", "unimplemented", "unreachable", "indexing_slicing", "string_slice"]
